@@ -36,16 +36,23 @@ CustomVariants == Sel({}, {Custom(UT("gte", 2, "cust"))}, {Custom(UT("gte", 2, "
 
 Inner == Struct(<<Kid("x", NoTags, Prim("int", TRUE, None, None, <<T("gte", 2, "gte")>>, <<>>))>>,
                 <<UT("const", 0, "st1"), UT("const", 0, "st2")>>, <<"ok">>)
-StructVariants == {Inner, Ptr(Inner, TRUE), Slice(Inner, FALSE, None, <<>>, <<>>)}
+CatchElem == Prim("int", FALSE, None, 5, <<T("gte", 2, "gte")>>, <<>>)
+Inner2 == Struct(<<Kid("x", NoTags, CatchElem), Kid("y", NoTags, Ptr(Prim("int", FALSE, None, None, <<>>, <<>>), TRUE))>>, <<>>, <<>>)
+\* catching nodes below other containers: element behind a pointer, slice behind a pointer, struct element
+DeepVariants == {Slice(Ptr(CatchElem, TRUE), FALSE, None, <<>>, <<>>),
+                 Ptr(Slice(CatchElem, TRUE, None, SliceTests, <<>>), TRUE),
+                 Slice(Inner2, FALSE, None, <<>>, <<>>)}
+StructVariants == {Inner, Ptr(Inner, TRUE), Slice(Inner, FALSE, None, <<>>, <<>>)} \cup Sel({Slice(Ptr(CatchElem, TRUE), FALSE, None, <<>>, <<>>)}, DeepVariants, DeepVariants)
 
 FieldVariants == PrimVariants \cup SliceVariants \cup PtrVariants \cup CustomVariants \cup StructVariants
 
 LeafInputs == Sel({Missing, Bad, Val(1), Val(3)},
                   {Missing, Blank, Bad, Val(0), Val(1), Val(3)},
                   {Missing, Nil, Blank, Empty, Bad, Val(0), Val(1), Val(3), SVal(3)})
-ListInputs == Sel({Missing, List(<<Val(1), Val(3)>>)},
-                  {Missing, Val(3), List(<<>>), List(<<Val(1), Val(3)>>), List(<<Bad, Val(3)>>)},
-                  {Missing, Nil, Blank, Val(3), List(<<>>), List(<<Val(1), Val(3)>>), List(<<Val(3), Val(1)>>), List(<<Bad, Val(3)>>)})
+ListInputs == Sel({Missing, List(<<Val(1), Val(3)>>), List(<<Val(1), Nil>>)},
+                  {Missing, Val(3), List(<<>>), List(<<Val(1), Val(3)>>), List(<<Bad, Val(3)>>), List(<<Val(1), Nil>>)},
+                  {Missing, Nil, Blank, Val(3), List(<<>>), List(<<Val(1), Val(3)>>), List(<<Val(3), Val(1)>>), List(<<Bad, Val(3)>>),
+                   List(<<Val(1), Nil>>), List(<<Nil, Val(3)>>)})
 InnerInputs == Sel({Map(<<Ent("x", Val(1))>>), Map(<<Ent("x", Val(3))>>)},
                    {Missing, Val(1), Map(<<Ent("x", Val(1))>>), Map(<<Ent("x", Val(3))>>), Map(<<>>)},
                    {Missing, Val(1), Map(<<Ent("x", Val(1))>>), Map(<<Ent("x", Val(3))>>), Map(<<>>)})
@@ -54,7 +61,8 @@ RECURSIVE ParseInputs(_)
 ParseInputs(node) ==
   CASE node.k \in {"prim", "custom"} -> LeafInputs
     [] node.k = "slice"  -> IF Elem(node).k = "struct"
-                            THEN {Missing, List(<<>>), List(<<Map(<<Ent("x", Val(1))>>), Map(<<Ent("x", Val(3))>>)>>)}
+                            THEN {Missing, List(<<>>), List(<<Map(<<Ent("x", Val(1))>>), Map(<<Ent("x", Val(3))>>)>>),
+                                  List(<<Map(<<Ent("x", Val(1)), Ent("y", Val(1))>>), Map(<<Ent("x", Val(3))>>)>>)}
                             ELSE ListInputs
     [] node.k = "ptr"    -> ParseInputs(Elem(node))
     [] node.k = "struct" -> InnerInputs
@@ -65,7 +73,9 @@ RECURSIVE ValueInputs(_)
 ValueInputs(node) ==
   CASE node.k \in {"prim", "custom"} -> {Val(0), Val(1), Val(3)}
     [] node.k = "slice"  -> IF Elem(node).k = "struct"
-                            THEN {Nil, List(<<Map(<<Ent("x", Val(1))>>), Map(<<Ent("x", Val(3))>>)>>)}
+                            THEN {Nil, List(<<Map(<<Ent("x", Val(1))>>), Map(<<Ent("x", Val(3))>>)>>),
+                                  List(<<Map(<<Ent("x", Val(1)), Ent("y", Val(1))>>), Map(<<Ent("x", Val(3))>>)>>)}
+                            ELSE IF Elem(node).k = "ptr" THEN {Nil, List(<<Val(1), Nil>>), List(<<Nil, Val(3)>>)}
                             ELSE {Nil, List(<<>>), List(<<Val(1), Val(3)>>), List(<<Val(3), Val(0)>>)}
     [] node.k = "ptr"    -> {Nil} \cup ValueInputs(Elem(node))
     [] node.k = "struct" -> {Map(<<Ent("x", Val(0))>>), Map(<<Ent("x", Val(1))>>), Map(<<Ent("x", Val(3))>>)}
@@ -73,7 +83,8 @@ ValueInputs(node) ==
 
 InputsFor(node, mode) == IF mode = "parse" THEN ParseInputs(node) ELSE ValueInputs(node)
 
-StructTests == Sel({<<UT("const", 0, "st1"), UT("const", 0, "st2")>>}, {<<UT("const", 0, "st1"), UT("const", 0, "st2")>>},
+\* quick: the root's own tests pass, so that successful executions exist (C01, C03); failing struct tests are on Inner
+StructTests == Sel({<<UT("const", 0, "st1"), UT("const", 0, "st2")>>}, {<<UT("const", 1, "st1"), UT("const", 1, "st2")>>},
                    {<<>>, <<UT("const", 0, "st1"), UT("const", 0, "st2")>>, <<UT("const", 1, "st1")>>})
 
 MkCase(mode, f1, f2, i1, i2, sts) ==
